@@ -100,10 +100,7 @@ def roles08(tu):
                 r["actions"] = erase(f["q"])
             if re.match(r"trompeloeil::list<trompeloeil::condition_base<", t):
                 r["conditions"] = erase(f["q"])
-    vm = set(f.qe for f in tu.fns.values() if erase(f.rec.get("clsq", "")) == "trompeloeil::side_effect_base"
-             and f.kind == "method" and f.rec.get("virtual"))
-    if len(vm) == 1:
-        r["action"] = vm.pop()
+    r["action"] = lib.side_effect_action(tu)
     for c in tu.cls_by_qe.get("trompeloeil::throw_handler_t", [])[:1]:
         fl = c.get("fields", ())
         if len(fl) == 1:
